@@ -262,7 +262,7 @@ func main() {
 	}
 
 	// generated messages of the stated shape
-	for i := 0; i < c.N(1200, 80000); i++ {
+	for i := 0; i < c.N(1200, 30000); i++ {
 		k := r.Range(1, 5)
 		words := make([]string, k)
 		for j := range words {
@@ -291,7 +291,7 @@ func main() {
 	}
 	// out of shape and arbitrary
 	alphabet := "ABCXYZ019__\x00\xff az٣"
-	for i := 0; i < c.N(500, 40000); i++ {
+	for i := 0; i < c.N(500, 12000); i++ {
 		var msg []byte
 		switch r.Intn(4) {
 		case 0: // random parts incl. empty ones, several numbers
